@@ -134,6 +134,10 @@ int main(int argc, char** argv) {
       std::string in = b64; if (in == "-") in.clear();
       String s(in.data(), in.size());
       String out = String::fromBase64(s);
+      // the same text as a String attached to the start of an exactly sized (terminated) heap block: nothing in front of the text belongs to it
+      { char* blk = (char*)malloc(in.size() + 1); memcpy(blk, in.data(), in.size()); blk[in.size()] = 0; String at; at.attach(blk, in.size());
+        String out2 = String::fromBase64(at); if (out2.length() != out.length() || memcmp((const char*)out2, (const char*)out, out.length()) != 0) printf("MISMATCH fromBase64 of an attached text differs from fromBase64 of its copy: %s\n", b64);
+        free(blk); }
       printf("B %s %s\n", b64, hex((const unsigned char*)(const char*)out, out.length()).c_str());
     }
     fclose(f); return 0;
